@@ -1757,6 +1757,23 @@ orc_vex_insn_codegen (OrcCompiler *const p, OrcX86Insn *const xinsn)
   }
 }
 
+/* orc_compiler_compile_program() gives the back end a buffer of this size; the
+ * longest x86 instruction has 15 bytes, an alignment directive pads by less
+ * than 32 */
+#define ORC_X86_CODE_BUFFER_SIZE 65536
+#define ORC_X86_CODE_BUFFER_MARGIN 64
+
+static int
+orc_x86_code_buffer_full (OrcCompiler *p)
+{
+  if (p->codeptr - p->code > ORC_X86_CODE_BUFFER_SIZE - ORC_X86_CODE_BUFFER_MARGIN) {
+    orc_compiler_error (p, "program too large: the generated code does not fit in %d bytes",
+        ORC_X86_CODE_BUFFER_SIZE);
+    return TRUE;
+  }
+  return FALSE;
+}
+
 static void
 orc_x86_recalc_offsets (OrcCompiler *p)
 {
@@ -1770,6 +1787,8 @@ orc_x86_recalc_offsets (OrcCompiler *p)
     unsigned char *ptr;
 
     xinsn = ((OrcX86Insn *)p->output_insns) + i;
+
+    if (orc_x86_code_buffer_full (p)) break;
 
     xinsn->code_offset = p->codeptr - p->code;
 
@@ -1865,6 +1884,8 @@ orc_x86_output_insns (OrcCompiler *p)
 
   for(i=0;i<p->n_output_insns;i++){
     xinsn = ((OrcX86Insn *)p->output_insns) + i;
+
+    if (p->error || orc_x86_code_buffer_full (p)) break;
 
     orc_x86_insn_output_asm (p, xinsn);
 
